@@ -25,14 +25,18 @@ func VerifSOStat(s *UDPSession) (waitsnd, sndwnd, peeksize int) {
 }
 
 // VerifSOTapOutput makes every call of the core's output callback visible to the harness
-// (buffer and size argument) before the session's own callback runs.
-func VerifSOTapOutput(s *UDPSession, tap func(buf []byte, size int)) {
+// (buffer and size argument) before the session's own callback runs.  If tap returns false
+// the session's callback is not called (the harness uses this to stop before a packet that
+// would make the AEAD wrapper panic inside the postProcess goroutine, where no harness can
+// recover; the harness reports the violation itself).
+func VerifSOTapOutput(s *UDPSession, tap func(buf []byte, size int) bool) {
 	s.mu.Lock()
 	defer s.mu.Unlock()
 	orig := s.kcp.output
 	s.kcp.output = func(buf []byte, size int) {
-		tap(buf, size)
-		orig(buf, size)
+		if tap(buf, size) {
+			orig(buf, size)
+		}
 	}
 }
 
